@@ -96,6 +96,11 @@ func init() {
 					}
 				}
 			}
+			// a deep source host: the $domain value sits between the registrable domain and the full host name
+			for _, sl := range []int64{7, 8} {
+				jobs = append(jobs, Job{Pkg: "root", Func: "verifC01", Args: []int64{1, c01Shape([2]int{0, 1}), 6, 4, sl, 0}})
+				jobs = append(jobs, Job{Pkg: "root", Func: "verifC01", Args: []int64{1, c01Shape([2]int{0, 1}), 5, 4, sl, 0}})
+			}
 			// the real hash function on 5-byte windows over {a,c,/} (collisions exist: "aaac/" and "aac/a"): counterexamples replay
 			for _, sh := range []int64{c01Shape([2]int{5, 0}), c01Shape([2]int{5, 0}, [2]int{5, 0}), c01Shape([2]int{6, 0}, [2]int{5, 0})} {
 				n := int64(1)
@@ -129,7 +134,7 @@ func init() {
 		AbstractHash: true,
 		MustReach: []string{"c01.match", "hash.lemma"},
 		Bounds: map[string]string{
-			"quick":    "1..3 rules with literal patterns (three rules with URLs of 5..6 bytes; URL-like shortcuts over {h,t,p,s,:,/,w} of 5,6,8 bytes): shortcut of 0,2,3,5,6,7 symbolic bytes over {a,b,:,/} (below, at and above the table's window length), 0..2 $domain values of 2 or 4 symbolic bytes over {z,q,.,*} (incl. wildcard TLD; two rules also with values of different lengths, i.e. a domain and its subdomain), distinct storage indexes; URL of 4,5,6,8 symbolic bytes (5,6 with two rules); source host absent or 1..4 symbolic bytes plus a PSL tail; the hash is an uninterpreted function of the window bytes (arbitrary collisions); plus real-hash jobs: the real FastHashBetween body on shortcuts and URLs of 5..6 bytes over {a,c,/}",
+			"quick":    "1..3 rules with literal patterns (three rules with URLs of 5..6 bytes; URL-like shortcuts over {h,t,p,s,:,/,w} of 5,6,8 bytes): shortcut of 0,2,3,5,6,7 symbolic bytes over {a,b,:,/} (below, at and above the table's window length), 0..2 $domain values of 2 or 4 symbolic bytes over {z,q,.,*} (incl. wildcard TLD; two rules also with values of different lengths, i.e. a domain and its subdomain), distinct storage indexes; URL of 4,5,6,8 symbolic bytes (5,6 with two rules); source host absent or 1..4 symbolic bytes plus a PSL tail (one rule: also 7..8 bytes, i.e. up to four labels, with $domain values of 5 or 6 bytes); the hash is an uninterpreted function of the window bytes (arbitrary collisions); plus real-hash jobs: the real FastHashBetween body on shortcuts and URLs of 5..6 bytes over {a,c,/}",
 			"thorough": "up to 3 rules, URLs up to 11 bytes, more shape pairs and source hosts",
 		},
 		Outside:     []string{"rule storage and parser (perfect storage stub; C11, C13)", "the compiled pattern (literal patterns: accepts iff the lower-cased URL contains the literal; C03)", "real djb2 collisions as opposed to arbitrary ones, except in the real-hash jobs (shortcut table, 1..2 rules, shortcuts and URLs over {a,c,/} where the real function collides on 5-byte windows): elsewhere a counterexample that needs a collision cannot be replayed natively and is reported as a note", "more than 3 rules, longer URLs, other modifiers than $domain"},
